@@ -35,7 +35,7 @@ THEOREMS = [NS + t for t in (
     'C03_cell_roundtrip_partial', 'C03_code_roundtrip', 'C03_text_eq_counterexample', 'C03_eq_hypothesis_forced',
     'C03_serialize_content', 'C03_serialize_sorted',
     'C03_order_independent_map', 'C03_order_independent_bytes', 'C03_order_counterexample',
-    'C03_save_twice_identical', 'C03_pickle_not_rewritten', 'C03_pickle_not_rewritten_digest', 'C03_pickle_fresh_step',
+    'C03_doc_keys', 'C03_doc_keys_after_add', 'C03_save_twice_identical', 'C03_pickle_not_rewritten', 'C03_pickle_not_rewritten_digest', 'C03_pickle_fresh_step',
     'C03_pickle_fresh', 'C03_weak_digest_counterexample', 'C03_save_twice_asWritten_counterexample',
     'C03_idempotent_map', 'C03_idempotent_bytes', 'C03_idempotent_counterexample',
     'C03_carried', 'C03_resave_settings', 'C03_resave_identical',
@@ -75,7 +75,7 @@ TRUSTED = ['md5 (hashlib) of the WHOLE file as the digest of to_file/hash_matche
            'networkx; the engine model is the C01 one']
 REQUIRED_BUCKETS = ['yml:same', 'json:same', 'pkl:same', 'yml:thread', 'yml:proc', 'json:proc', 'pkl:proc',
                     'pkl:thread', 'json:thread', 'pool', 'cse', 'iter-fixture', 'hash:none', 'hash:before-save',
-                    'hash:after-save', 'hash:after-load', 'pk:small', 'pk:large']
+                    'hash:after-save', 'hash:after-load', 'pk:small', 'pk:large', 'xd', 'unbounded']
 EXHAUSTIVE = False
 EXPLANATION = ('theorems: persistence model + C01 engine, all cell maps/codecs/histories; correspondence: file content, '
                'save-twice, re-save and post-load history of the real ExcelCompiler vs the compiled model; '
@@ -291,7 +291,84 @@ def impl(case):
             return _impl_hash(case, key, tmp)
         if case.get('kind') == 'pk':
             return _impl_pk(case, key, tmp)
+        if case.get('kind') == 'xd':
+            return _impl_xd(case, key, tmp)
         return _impl(case, key, tmp)
+
+
+# ---------------------------------------------------------------------------------------------------------------
+# extra_data histories: the user's dict is mutated IN PLACE between saves; save / load / re-save
+
+def _impl_xd(case, key, tmp):
+    from pycel import ExcelCompiler
+    from harness import pyc
+    fmt = case['fmt']
+    comp = pyc.compiler_from({'Sheet1!A1': 1, 'Sheet1!B1': '=A1*2'})
+    comp.evaluate('Sheet1!B1')
+    mirror = None if case['extra'] is None else json.loads(json.dumps(case['extra']))
+    if mirror is not None:
+        comp.extra_data = json.loads(json.dumps(mirror))
+    info = {'kind': 'xd', 'fails': []}
+    _INFO[key] = info
+    base = os.path.join(tmp, 'model')
+    text, pkl = f'{base}.{fmt}', base + '.pkl'
+    keys_out, prev, clean = [], None, False
+    for k, st in enumerate(case['steps']):
+        if st[0] == 'SAVE':
+            comp.to_file(base, file_types=('pkl', fmt))
+            b = open(text, 'rb').read()
+            pst = os.stat(pkl)
+            cur = (b, pst.st_mtime_ns, pst.st_ino)
+            doc = _doc_of(text)
+            keys_out.append(' '.join(core.enc_text(str(x)) for x in doc))
+            if clean and prev is not None:
+                if prev[0] != b:
+                    info['fails'].append(f'step {k}: saving the unchanged {"loaded " if clean == "loaded" else ""}model '
+                                         f'changed the text file (top-level keys {list(_doc_of_bytes(prev[0]))} -> {list(doc)})')
+                elif prev[1:] != cur[1:]:
+                    info['fails'].append(f'step {k}: the pickle was rewritten although the text did not change')
+            user = {x: v for x, v in _jsonable(dict(doc)).items() if x not in RESERVED}
+            if user != (mirror or {}):
+                info['fails'].append(f'step {k}: the file holds extra_data {user}, the model {mirror}')
+            prev, clean = cur, 'saved'
+            saved_mirror = json.loads(json.dumps(mirror))
+        elif st[0] == 'LOAD':
+            comp = ExcelCompiler.from_file({'pkl': pkl, 'text': text, 'bare': base}[st[1]])
+            mirror = json.loads(json.dumps(saved_mirror))      # what was not saved is gone
+            got = {x: v for x, v in _jsonable(dict(comp.extra_data or {})).items() if x not in RESERVED}
+            if got != (mirror or {}):
+                info['fails'].append(f'step {k}: from_file({st[1]}) gives extra_data {got}, saved {mirror}')
+            if comp.evaluate('Sheet1!B1') != 2:
+                info['fails'].append(f'step {k}: loaded model evaluates B1 to {comp.evaluate("Sheet1!B1")}')
+            clean = 'loaded'
+        else:
+            if comp.extra_data is None:
+                comp.extra_data = {}
+            if mirror is None:
+                mirror = {}
+            if st[0] == 'ADD':
+                comp.extra_data[st[1]] = json.loads(json.dumps(st[2]))
+                mirror[st[1]] = json.loads(json.dumps(st[2]))
+            elif st[0] == 'DEL':
+                comp.extra_data.pop(st[1], None)
+                mirror.pop(st[1], None)
+            elif st[0] == 'NEST':          # mutate a nested dict / list in place
+                for d in (comp.extra_data, mirror):
+                    v = d.get(st[1])
+                    if isinstance(v, dict):
+                        v[st[2]] = st[3]
+                    elif isinstance(v, list):
+                        v.append(st[3])
+                    else:
+                        d[st[1]] = {st[2]: st[3]}
+            clean = False
+    return '/'.join(keys_out)
+
+
+def _doc_of_bytes(b):
+    import io
+    from ruamel.yaml import YAML
+    return YAML().load(io.StringIO(b.decode('utf-8')))
 
 
 # ---------------------------------------------------------------------------------------------------------------
@@ -433,8 +510,23 @@ def _impl_pk(case, key, tmp):
     return 'rw:' + ''.join(rw) + ';fresh:%d' % (got['pkl'] == got[fmt2])
 
 
+def _ub_workbook(case):
+    """A1:Ak numbers, B1 = SUM(A:A), B2 = 5, D1 = SUM(B1:B2), F5 = INDEX(1:1,2), G6 = SUM(2:2)"""
+    import openpyxl
+    from pycel import ExcelCompiler
+    wb = openpyxl.Workbook()
+    ws = wb.active
+    ws.title = 'Sheet1'
+    for n in case['nodes']:
+        if n[0] == 'I':
+            ws[n[1].split('!')[1]] = c01._py(n[2])
+        elif n[0] == 'X':
+            ws[n[1].split('!')[1]] = n[2]
+    return ExcelCompiler(excel=wb)
+
+
 def _impl(case, key, tmp):
-    nodes = case['nodes']
+    nodes = list(case['nodes'])
     fmt, mode = case['fmt'], case['mode']
     addr_index = {}
     for i, n in enumerate(nodes):
@@ -447,6 +539,8 @@ def _impl(case, key, tmp):
         comp = ExcelCompiler(filename=path)
     elif case.get('cse'):
         comp = _cse_workbook()
+    elif case.get('ub'):
+        comp = _ub_workbook(case)
     else:
         comp = _build(_cells_of(case), c01.names_of(case.get('names'), [n if n[0] != 'X' else ['I', n[1], 'z'] for n in nodes]),
                       case.get('cycles'), case.get('src', 'mem'), tmp)
@@ -459,14 +553,22 @@ def _impl(case, key, tmp):
     for a, cell in comp.cell_map.items():
         i = addr_index.get(a)
         if i is None:
-            info['alien'] = a
-            continue
+            # an address the generator did not name (the reference cell of an unbounded range, its bounded range,
+            # the blank cells such a range covers): it joins the node list of this run
+            i = len(nodes)
+            addr_index[a] = i
+            if cell.formula and cell.formula.python_code:
+                nodes.append(['X', a, 'found'])
+            elif ':' in a:
+                nodes.append(['R', a, 0, 0, []])
+            else:
+                nodes.append(['I', a, core.enc(cell.value)])
         order.append(i)
         if cell.formula and cell.formula.python_code:
             codes[i] = cell.formula.python_code
         elif nodes[i][0] != 'R':
             consts[i] = core.enc(cell.value)
-    info.update(order=order, codes=codes, consts=consts)
+    info.update(order=order, codes=codes, consts=consts, nodes=nodes)
     _INFO[key] = info
     saved = [i for i in order if nodes[i][0] != 'R' or i in codes]
     # save twice
@@ -515,6 +617,10 @@ def _impl(case, key, tmp):
         return [(addr_index.get(_canon_addr(a), -1), core.enc(v)) for a, v in items]
     e1, e2 = ent(fmap), ent(fmap2)
     info['idemmap'] = dict(e1) == dict(e2) and len(e1) == len(e2)
+    # "saving a loaded model reproduces the same content": when the cell map came back entry for entry, the whole
+    # document (settings, user extra_data, their order) must be the same bytes
+    if e1 == e2 and open(resave, 'rb').read() != bytes2:
+        info['resave_keys'] = (topkeys, _file_map(resave)[1])
     parts = ['map:' + '~'.join(f'{i}={t}' for i, t in e1),
              'twice:%d' % info['twice'],
              'idem:%d' % (e1 == e2),
@@ -541,9 +647,20 @@ def model_lines(case):
         return ['c03 hash 0 ' + ' '.join((info or {}).get('curs', ['!']))]
     if case.get('kind') == 'pk':
         return ['c03 pk ' + ' '.join((info or {}).get('texts', ['!']))]
+    if case.get('kind') == 'xd':
+        toks = ['c03', 'xd']
+        toks += ['none'] if case['extra'] is None else [str(len(case['extra']))] + [core.enc_text(k) for k in case['extra']]
+        for st in case['steps']:
+            if st[0] in ('SAVE', 'LOAD'):
+                toks.append(st[0])
+            elif st[0] in ('ADD', 'DEL'):
+                toks += [st[0], core.enc_text(st[1])]
+            elif st[0] == 'NEST':
+                toks += ['ADD', core.enc_text(st[1])]      # the key exists afterwards, in its old place if it did
+        return [' '.join(toks)]
     if not info or 'order' not in info:
         return ['c03 !noinfo']
-    nodes = case['nodes']
+    nodes = info.get('nodes', case['nodes'])
     toks = ['c03', str(len(nodes))]
     for i, n in enumerate(nodes):
         toks += _key_toks(n[1])
@@ -625,7 +742,7 @@ def _oracle_failures(case, info):
         return [(f'from_file/history in mode {case["mode"]} raised {info["load_exc"]}', None)]
     if 'orig_ops' not in info:
         return [('the case did not complete', None)]
-    nodes = case['nodes']
+    nodes = info.get('nodes', case['nodes'])
     if not info['twice']:
         out.append((f'saving the unchanged model a second time changed the text file (top-level keys '
                     f'{info.get("twice_keys")})', None))
@@ -633,6 +750,9 @@ def _oracle_failures(case, info):
         out.append(('the pickle was rewritten by the second save of an unchanged model', None))
     if not info['idemmap']:
         out.append(('saving the loaded model wrote a different cell_map content', None))
+    if 'resave_keys' in info:
+        out.append((f'saving the unchanged loaded model wrote a different text file although the cell map is the same '
+                    f'(top-level keys {info["resave_keys"]})', None))
     for i, a, b in zip(info['saved'], info['loaded_saved'], info['orig_saved']):
         if a != b:
             out.append((f'saved cell {nodes[i][1]}: loaded model gives {core.show(a)}, original {core.show(b)}', i))
@@ -654,7 +774,7 @@ def oracles(results):
         if info is None:
             yield r.case, f'implementation failed before the model was saved: {r.impl[:200]}'
             continue
-        if info.get('kind') in ('hash', 'pk'):
+        if info.get('kind') in ('hash', 'pk', 'xd'):
             if info['fails']:
                 yield r.case, '; '.join(info['fails'][:3])
             continue
@@ -743,7 +863,7 @@ def finding_key(case, impl_out, model_out):
     by_text = {}
     for text, node in _oracle_failures(case, info):
         if node is None:
-            if 'cell_map content' in text:
+            if 'cell_map content' in text or 'although the cell map is the same' in text:
                 continue            # consequence of a changed constant; localised by the per-cell comparison
             return None
         by_text.setdefault(text, set()).add(node)
@@ -769,7 +889,7 @@ def finding_key(case, impl_out, model_out):
 def nontrivial(case):
     if case.get('kind') == 'hash':
         return case['edit'] != 'none'
-    if case.get('kind') == 'pk':
+    if case.get('kind') in ('pk', 'xd'):
         return True
     nodes = case['nodes']
     if any(n[0] == 'X' for n in nodes):
@@ -855,7 +975,7 @@ OPS = {'S': 3, 'E': 2, 'SR': 5, 'EL': 2}
 def supported(case):
     """the workbook and both histories only use node kinds and operations the model driver understands: a case that
     the (shared, evolving) c01 generators produce outside this whitelist is never emitted"""
-    if case.get('kind') == 'pk':
+    if case.get('kind') in ('pk', 'xd'):
         return True
     for n in case['nodes']:
         if n[0] not in ('I', 'F', 'R', 'X') or (n[0] == 'F' and n[2] not in KINDS):
@@ -867,8 +987,11 @@ def supported(case):
 
 
 def gen_case(rng, fmt, mode, cycles, near=False):
-    for _ in range(20):
-        case = _gen_case(rng, fmt, mode, cycles, near)
+    for _ in range(40):
+        try:
+            case = _gen_case(rng, fmt, mode, cycles, near)
+        except Exception:   # noqa  (the shared c01 generators evolve; a crash there must not stop this check)
+            continue
         if supported(case):
             return case
         case['ops'] = [op for op in case['ops'] if op[0] in OPS and len(op) == OPS[op[0]]]
@@ -994,7 +1117,17 @@ def hash_cases(rng, count):
             for fmt in ('yml', 'json', 'pkl'):
                 k += 1
                 if count == 1 or k % 3 == rng.randrange(3) or edit == 'before-save':
-                    nodes = c01.gen_workbook(rng, free_ranges=False)
+                    nodes = None
+                    for _ in range(40):
+                        try:
+                            nodes = c01.gen_workbook(rng, free_ranges=False)
+                        except Exception:   # noqa
+                            continue
+                        if all(n[0] != 'F' or n[2] in KINDS for n in nodes):
+                            break
+                        nodes = None
+                    if nodes is None:
+                        continue
                     case = {'kind': 'hash', 'tag': 'hash:' + edit, 'nodes': nodes, 'fmt': fmt, 'edit': edit,
                             'pre': [['E', i] for i in range(len(nodes))], 'ops': [],
                             'extra': _json_extra(rng) if rng.random() < 0.5 else None}
@@ -1020,9 +1153,84 @@ def pk_cases(thorough):
                            'fmt': fmt, 'nodes': [], 'pre': [], 'ops': []}
 
 
+XD_KEYS = ['owner', 'note', 'aaa', 'zzz', 'Zed', 'a b', 'dict', 'list', 'k1', 'k2']
+XD_VALS = [1, 'alice', 2.5, None, True, [1, 'a'], {'n': 1, 'm': {'z': 'y'}}, 'yes', []]
+
+
+def xd_cases(rng, count):
+    def case(fmt, extra, steps):
+        return {'kind': 'xd', 'tag': 'xd', 'fmt': fmt, 'extra': extra, 'steps': steps, 'nodes': [], 'pre': [], 'ops': []}
+    for fmt in ('yml', 'json'):
+        for how in ('pkl', 'text', 'bare'):
+            # set a dict, save, add a key in place, save, save, load, save (twice)
+            yield case(fmt, {'owner': 'alice'}, [['SAVE'], ['ADD', 'note', 'reviewed'], ['SAVE'], ['SAVE'],
+                                                 ['LOAD', how], ['SAVE'], ['SAVE']])
+        yield case(fmt, None, [['SAVE'], ['ADD', 'zzz', 1], ['SAVE'], ['LOAD', 'text'], ['SAVE'], ['ADD', 'aaa', 2],
+                               ['SAVE'], ['LOAD', 'pkl'], ['SAVE']])
+        yield case(fmt, {'aaa': 1, 'zzz': {'n': 1}}, [['SAVE'], ['DEL', 'aaa'], ['NEST', 'zzz', 'm', 2], ['SAVE'],
+                                                      ['LOAD', 'bare'], ['SAVE'], ['ADD', 'aaa', 3], ['SAVE'], ['SAVE']])
+    for _ in range(count):
+        fmt = rng.choice(['yml', 'json'])
+        keys = rng.sample(XD_KEYS, rng.randint(0, 3))
+        extra = None if rng.random() < 0.25 else {k: rng.choice(XD_VALS) for k in keys}
+        have = set(extra or {})
+        steps = []
+        for _ in range(rng.randint(4, 12)):
+            r = rng.random()
+            if r < 0.35:
+                steps.append(['SAVE'])
+            elif r < 0.5 and any(st[0] == 'SAVE' for st in steps):
+                steps.append(['LOAD', rng.choice(['pkl', 'text', 'bare'])])
+            elif r < 0.7 or not have:
+                k = rng.choice(XD_KEYS)
+                steps.append(['ADD', k, rng.choice(XD_VALS)])
+                have.add(k)
+            elif r < 0.85:
+                k = rng.choice(sorted(have))
+                steps.append(['DEL', k])
+                have.discard(k)
+            else:
+                steps.append(['NEST', rng.choice(sorted(have)), rng.choice(['n', 'm', 'q']), rng.choice([1, 'x', None])])
+        steps += [['SAVE'], ['LOAD', rng.choice(['pkl', 'text', 'bare'])], ['SAVE'], ['SAVE']]
+        yield case(fmt, extra, steps)
+
+
+def ub_cases(rng, count):
+    """formulas over unbounded ranges (SUM(A:A), INDEX(1:1,2), SUM(2:2)), one of them a member of a range another
+    formula reads; some formulas evaluated before the save and some not; every format; post-load set_value of cells
+    of those ranges"""
+    def case(fmt, mode, k, pre, ops):
+        nodes = [['I', f'Sheet1!A{r}', _tok(r)] for r in range(1, k + 1)]
+        nodes += [['I', 'Sheet1!B2', _tok(5)], ['X', 'Sheet1!B1', '=SUM(A:A)'], ['X', 'Sheet1!D1', '=SUM(B1:B2)'],
+                  ['X', 'Sheet1!F5', '=INDEX(1:1,2)'], ['X', 'Sheet1!G6', '=SUM(2:2)']]
+        return {'nodes': nodes, 'fmt': fmt, 'mode': mode, 'cycles': 0, 'pre': [['E', k + 1 + j] for j in pre],
+                'ops': [['S', i, _tok(v)] if kind == 'S' else ['E', k + 1 + i] if kind == 'E' else
+                        ['EL', [k + 1 + j for j in i]] for kind, i, v in ops],
+                'noeval': 1, 'src': 'mem', 'extra': None, 'tag': 'unbounded', 'ub': 1}
+    for fmt in ('pkl', 'yml', 'json'):
+        # B1 = SUM(A:A) is computed by the save itself (member of B1:B2); then A1 changes after the load
+        yield case(fmt, 'same', 3, [1], [('E', 1, 0), ('S', 0, 10), ('EL', [0, 1], 0), ('S', 3, 7), ('E', 1, 0)])
+        yield case(fmt, 'thread', 3, [2, 1], [('S', 0, 10), ('E', 2, 0), ('E', 1, 0), ('S', 1, 4), ('EL', [2, 1, 0], 0)])
+    for _ in range(count):
+        k = rng.randint(2, 4)
+        pre = rng.sample(range(4), rng.randint(1, 4))
+        ops = []
+        for _ in range(rng.randint(2, 8)):
+            if rng.random() < 0.5:
+                ops.append(('S', rng.randrange(k + 1), rng.choice([10, 0, -3, 2.5, None, 'x', True])))
+            elif rng.random() < 0.7:
+                ops.append(('E', rng.choice(pre), 0))
+            else:
+                ops.append(('EL', [rng.choice(pre) for _ in range(rng.randint(1, 3))], 0))
+        ops += [('E', j, 0) for j in pre]
+        yield case(rng.choice(['pkl', 'pkl', 'yml', 'json']), rng.choice(['same', 'same', 'thread']), k, pre, ops)
+
+
 def cases(tier, rng):
     thorough = tier == 'thorough'
     yield from pool_cases()
+    yield from xd_cases(rng, 120 if thorough else 12)
+    yield from ub_cases(rng, 150 if thorough else 15)
     yield from hash_cases(rng, 6 if thorough else 1)
     yield from pk_cases(thorough)
     yield from cse_cases()
